@@ -20,7 +20,7 @@ CONFIGS = {
 
 SAN = "-fsanitize=signed-integer-overflow,shift,integer-divide-by-zero,float-cast-overflow"
 
-COMMON = ["-O1", "-Xclang", "-disable-llvm-passes", "-fno-exceptions", "-gline-tables-only", SAN,
+COMMON = ["-O1", "-Xclang", "-disable-llvm-passes", "-fno-exceptions", "-gline-tables-only", "-fdebug-info-for-profiling", SAN,
           "-fsanitize-trap=all", "-Wno-deprecated-declarations", "-Wno-everything", "-S", "-emit-llvm"]
 
 
